@@ -103,6 +103,9 @@ type Updater struct {
 	Set   map[string]interface{} `json:"-"`
 	Style string                 `json:"style"`         // "copy": copy then set; "inplace": mutate the received document and return it
 	Nil   bool                   `json:"nil,omitempty"` // return nil (remove the document; UpdateFunc only)
+	// BadFor: for the document with this _id the updater produces an invalid document (_expiresAt that is not a
+	// time); every other document gets the normal update. The whole operation must then fail without any effect.
+	BadFor string `json:"bad_for,omitempty"`
 }
 
 type Op struct {
@@ -150,7 +153,7 @@ func (o Op) MarshalJSON() ([]byte, error) {
 		j["set"] = ToJSON(map[string]interface{}(o.Set))
 	}
 	if o.Upd != nil {
-		j["upd"] = map[string]interface{}{"set": ToJSON(map[string]interface{}(o.Upd.Set)), "style": o.Upd.Style, "nil": o.Upd.Nil}
+		j["upd"] = map[string]interface{}{"set": ToJSON(map[string]interface{}(o.Upd.Set)), "style": o.Upd.Style, "nil": o.Upd.Nil, "bad_for": o.Upd.BadFor}
 	}
 	if o.Field != "" {
 		j["field"] = o.Field
@@ -174,9 +177,10 @@ func (o *Op) UnmarshalJSON(b []byte) error {
 		Q                        *Q
 		Set                      interface{}
 		Upd                      *struct {
-			Set   interface{}
-			Style string
-			Nil   bool
+			Set    interface{}
+			Style  string
+			Nil    bool
+			BadFor string `json:"bad_for"`
 		}
 		Stop    int
 		Missing bool
@@ -203,7 +207,7 @@ func (o *Op) UnmarshalJSON(b []byte) error {
 		o.Set = v.(map[string]interface{})
 	}
 	if j.Upd != nil {
-		o.Upd = &Updater{Style: j.Upd.Style, Nil: j.Upd.Nil}
+		o.Upd = &Updater{Style: j.Upd.Style, Nil: j.Upd.Nil, BadFor: j.Upd.BadFor}
 		if j.Upd.Set != nil {
 			v, err := FromJSON(j.Upd.Set)
 			if err != nil {
@@ -261,6 +265,9 @@ func ApplyUpdater(u *Updater, d Doc) Doc {
 	nd := Clone(d).(Doc)
 	for k, v := range u.Set {
 		SetPath(nd, k, Clone(v))
+	}
+	if id, _ := d["_id"].(string); u.BadFor != "" && id == u.BadFor {
+		nd["_expiresAt"] = "not a time"
 	}
 	return nd
 }
